@@ -1908,6 +1908,24 @@ impl ProtoExpression {
                             let is_one = builder.ins().icmp_imm_s(IntCC::NotEqual, payload, 0);
                             let not_one = builder.ins().bnot(is_one);
                             let has_x = builder.ins().band(not_one, is_xz);
+                            // `&&`: a known-false operand decides 0 whatever the
+                            // other is (matches Op::eval_value_binary).
+                            let has_x = if matches!(op, Op::LogicAnd) {
+                                let x_any = match x_mask_xz {
+                                    Some(m) => builder.ins().bor(x_payload, m),
+                                    None => x_payload,
+                                };
+                                let y_any = match y_mask_xz {
+                                    Some(m) => builder.ins().bor(y_payload, m),
+                                    None => y_payload,
+                                };
+                                let x_true = icmp_const(builder, IntCC::NotEqual, x_any, 0, needs_wide);
+                                let y_true = icmp_const(builder, IntCC::NotEqual, y_any, 0, needs_wide);
+                                let x0 = builder.ins().band(x_true, y_true);
+                                builder.ins().band(has_x, x0)
+                            } else {
+                                has_x
+                            };
                             let one = builder.ins().iconst(I64, 1);
                             let mask_xz = builder.ins().select(has_x, one, context.zero);
                             Some((payload, Some(mask_xz)))
